@@ -72,10 +72,10 @@ PENDING = {
 }
 
 HOOKS = dict(
-    guard="cargo feature `verif-hooks` of truc_runtime (no hook commit yet: every current check runs the shipped code)",
-    enable="cargo build --features truc_runtime/verif-hooks (done by ./check where a check uses the hooks)",
+    guard="rustc cfg flag `truc_verif_hooks` (RUSTFLAGS=\"--cfg truc_verif_hooks\"); off by default, no cargo feature, the shipped crate is unchanged",
+    enable="the C06 and C07 checks build their hooks-on arm with RUSTFLAGS=\"--cfg truc_verif_hooks\" into /verif/target/hooks (lib/simr.py); every other arm and check runs the shipped code",
     baseline_off_cmd="cd /repo && cargo test --workspace --no-fail-fast --offline",
-    source_commits=[],
+    source_commits=["1b194ad"],
     add_only=True,
 )
 
